@@ -16,6 +16,11 @@ or loaded before.  The checks therefore never present the code under test with a
   with twice the channels; and it may be FOLLOWED by calls on other data of the same shape (by the same
   instance and by a twin) before the caller gets to look at what the first call returned.  Which steps run is a
   deterministic function of the call's content and VERIF_SEED, so a replay reproduces it.
+  Three more kinds (round 10 of the seeded changes): calls on the instance that FAIL (an input of another floating dtype
+  than the buffers, half precision, a tensor of the wrong rank, a one-pixel input, and their combinations - every
+  exception is swallowed, as a caller's try / except would) before the call under test; the instance switched to
+  `eval()` mode for good; the call under test made inside a `torch.autocast('cpu')` region when all its tensors and the
+  buffers are float64 (autocast does not touch float64).
 
 None of these steps may change the result of the call under test; if one does, the correspondence or
 the oracle that issued the call reports the difference with that call as the failing input.
@@ -119,7 +124,7 @@ def _recipe(name, args):
     v = int.from_bytes(h.digest()[:8], 'big')
     if (v & 0xFFFF) / 65536.0 >= STATE['p']:
         return 0
-    return ((v >> 16) & 0x3FF) or 1
+    return ((v >> 16) & 0x1FFF) or 1
 
 
 def _single(args):
@@ -208,6 +213,57 @@ def _history(self, call, args, bits):
             STATS['step_wider_first'] += 1
         except Exception:
             STATS['step_wider_first_raised'] += 1
+    if bits & 0x400:
+        # calls that FAIL first (the caller catches the exception and carries on): whatever a failed call leaves behind on the
+        # instance, on its class or in the process must not reach the next valid call
+        failed_calls(self, call, args)
+    if bits & 0x800:
+        # inference mode of nn.Module for good: none of these transforms has a training-time behaviour
+        self.eval()
+        STATS['step_eval_mode'] += 1
+
+
+def _bad_variants(args):
+    """argument tuples that are (mostly) refused: other floating dtypes x (same shape, last axis dropped, one pixel)"""
+    import torch
+    ts = [t for t in _tensors(args, []) if t.is_floating_point() and t.numel() and t.dim()]
+    if not ts:
+        return
+    cur = ts[0].dtype
+    dts = [torch.float32 if cur == torch.float64 else torch.float64, torch.float16, torch.bfloat16, cur]
+
+    def drop(t):
+        return t.select(-1, 0) if (t.is_floating_point() and t.dim() >= 3 and t.numel()) else t
+
+    def tiny(t):
+        if not (t.is_floating_point() and t.dim() >= 3 and t.numel()):
+            return t
+        for d in range(2, t.dim()):
+            t = t.narrow(d, 0, 1)
+        return t
+    for dt in dts:
+        for shp in (lambda t: t, drop, tiny):
+            if dt == cur and shp is not drop and shp is not tiny:
+                continue
+            yield _map(args, lambda t: shp(_alt(t, 4)).to(dt) if (t.is_floating_point() and t.numel() and t.dim()) else t)
+
+
+def failed_calls(self, call, args):
+    import torch
+    for bad in _bad_variants(args):
+        try:
+            with torch.no_grad():
+                call(self, bad)
+            STATS['step_odd_call_returned'] += 1
+        except Exception:
+            STATS['step_failed_call'] += 1
+
+
+def _all_f64(self, args):
+    import torch
+    ts = [t for t in _tensors(args, []) if t.is_floating_point()] + [v for v in self.state_dict().values() if v.is_floating_point()]
+    ts += [p for p in self.parameters() if p.is_floating_point()]
+    return bool(ts) and all(t.dtype == torch.float64 for t in ts)
 
 
 def _season_class(cls):
@@ -226,7 +282,14 @@ def _season_class(cls):
                     _history(self, lambda m, a: orig(m, *a), args, bits)
                 finally:
                     _bump(-1)
-        out = orig(self, *args, **kw)
+        if bits & 0x1000 and _all_f64(self, args):
+            # float64 is not eligible for autocast: the region must change nothing
+            import torch
+            STATS['call_in_autocast_region'] += 1
+            with torch.autocast('cpu', dtype=torch.bfloat16):
+                out = orig(self, *args, **kw)
+        else:
+            out = orig(self, *args, **kw)
         if bits & 0x300:
             # AFTER the call under test: the same instance (and a fresh twin) transform other data of the same
             # shape.  What the first call returned must not change (no shared output workspace).
